@@ -105,6 +105,9 @@ pub struct Translation {
     pub panic: Option<String>,
     /// rendered report (only when asked for)
     pub rendered: Option<String>,
+    /// the parser library did not finish on this input within the limit (known finding of C07);
+    /// nothing else was attempted and the document counts as one with a syntax error
+    pub parse_hang: bool,
 }
 
 impl Translation {
@@ -180,6 +183,11 @@ pub fn translate_with(
     opts: Opts,
 ) -> Translation {
     let mut t = Translation::default();
+    if !parse_terminates(src, PARSE_LIMIT_MS) {
+        t.parse_hang = true;
+        t.syntax_errors.push((0, 0, "the parser library did not terminate within the limit".to_owned()));
+        return t;
+    }
     let r = catch(|| {
         let mut t = Translation::default();
         let doc = UiDocument::parse(src, type_name, path);
@@ -350,4 +358,18 @@ pub fn run_cli(
         stderr: String::from_utf8_lossy(&th_err.join().unwrap()).into_owned(),
         timed_out,
     }
+}
+
+pub const PARSE_LIMIT_MS: u64 = 3000;
+
+/// Parses `src` with the same grammar and parser library as qmluic, but with a time limit.
+/// False = the parser library did not finish within `limit_ms` (known finding: tree-sitter's
+/// error recovery can livelock; the call in qmldoc.rs has no limit).
+#[allow(deprecated)]
+pub fn parse_terminates(src: &str, limit_ms: u64) -> bool {
+    let language = tree_sitter::Language::new(tree_sitter_qmljs::LANGUAGE);
+    let mut parser = tree_sitter::Parser::new();
+    parser.set_language(&language).expect("grammar compatible with parser");
+    parser.set_timeout_micros(limit_ms * 1000);
+    parser.parse(src.as_bytes(), None).is_some()
 }
